@@ -467,8 +467,26 @@ def run_meta(case, obs, prng):
         obs.check(not badk, 'invalid-meta-key-stored', f'{case["which"]} holds keys outside the vocabulary {badk} after {where}', 'invariant')
         return not badk
 
+    km0 = (dict(cls.key_mapping), list(cls.valid_keys))
     for step in range(case['len']):
         before = snapshot()
+        if prng.random() < 0.3:
+            # look-ups of a key outside the vocabulary (the `try: meta[k] except KeyError: ...` idiom) must not teach it to the class
+            bk = prng.choice([k for k in BAD_KEYS if isinstance(k, str)] + ['flux', 'foo'])
+            try:
+                m[bk]
+            except KeyError:
+                pass
+            m.get(bk)
+            bk in m
+            try:
+                m.update({bk: 1})
+                obs.violation('meta-accepts-invalid-key:update-after-lookup', f'{case["which"]}: key {bk!r} accepted by update() after it had been looked up')
+                dict.pop(m, bk, None)
+            except REJECT:
+                obs.ok(1, 'meta-event')
+            obs.check((dict(cls.key_mapping), list(cls.valid_keys)) == km0, 'meta-class-tables-changed',
+                      f'{case["which"]}: class-level key tables changed: key_mapping={cls.key_mapping}', 'meta-event')
         op = prng.choice(['setitem', 'setitem', 'update-dict', 'update-kw', 'update-pairs', 'setdefault', 'ior', 'ctor', 'fromkeys', 'or-result'])
         nvalid = prng.randint(0, 3)
         items = [(k, prng.choice(['v', 1, [1, 2]])) for k in prng.sample(keys + list(aliases), nvalid)]
